@@ -257,6 +257,22 @@ pub fn c14(h: &mut H) {
             // field-wise edits of the serialized ZKPoK
             let mut lv = Vec::new();
             leaves(&iss.zk, String::new(), &mut lv);
+            // every leaf replaced by another representative of the same residue modulo N (value + N, value - N)
+            if n <= 2 {
+                for (li, (path, _)) in lv.iter().enumerate() {
+                    if path.ends_with(".randomness") { continue; }
+                    for sign in [1i32, -1] {
+                        let mut z = iss.zk.clone();
+                        let mut cnt = 0usize;
+                        let nn = k.n_mod.clone();
+                        let f = move |x: &Integer| if sign > 0 { Integer::from(x + &nn) } else { Integer::from(x - &nn) };
+                        map_leaf(&mut z, &mut cnt, li, &f);
+                        h.stat("C14.leaf_plus_N");
+                        let v = zkverify(h, &k.pk, &bases, &z, &cv, ctv.as_ref(), iss.cpk.as_ref(), &hidden);
+                        h.expect(!v.is_true(), "C14.leaf_other_representative", &format!("verify_proof accepted a proof with field {} replaced by value {} N", path, if sign > 0 { "+" } else { "-" }), &[h.last()]);
+                    }
+                }
+            }
             let picks: Vec<usize> = if h.thorough && hidden.len() == 1 { (0..lv.len()).collect() } else {
                 let take = (leaf_budget as usize).min(6);
                 (0..take).map(|_| h.rng.below(lv.len() as u64) as usize).collect()
